@@ -526,6 +526,9 @@ type c06ConnCase struct {
 	Glued bool `json:"glued,omitempty"`
 	// NoHandler: the application never registered a handler (malformed packets must end the link all the same)
 	NoHandler bool `json:"noHandler,omitempty"`
+	// HandlerAt > 0: the handler is registered only after HandlerAt-1 packets of the prefix (between a QoS2 PUBLISH and its
+	// PUBREL, for instance)
+	HandlerAt int `json:"handlerAt,omitempty"`
 	// BlockedWrite: when the malformed packet arrives an application Publish is parked inside Transport.Write (the peer has
 	// stopped reading): the link must end all the same, and the parked call must come back
 	BlockedWrite bool `json:"blockedWrite,omitempty"`
@@ -556,11 +559,13 @@ func c06GenBad(rt *rapid.T) c06Bad {
 		for i := 0; i < n; i++ {
 			b = append(b, 0x80|byte(rapid.IntRange(0, 127).Draw(rt, "d")))
 		}
+		// (the peer may also stay silent afterwards: four length bytes with the continuation bit are already one too many)
+		closes := rapid.Bool().Draw(rt, "closes")
 		if rapid.Bool().Draw(rt, "term") {
 			b = append(b, byte(rapid.IntRange(0, 127).Draw(rt, "last")))
-			return c06Bad{Class: "length-field-too-long", Bytes: b, Close: true}
+			return c06Bad{Class: "length-field-too-long", Bytes: b, Close: closes}
 		}
-		return c06Bad{Class: "length-field-non-terminating", Bytes: b, Close: true}
+		return c06Bad{Class: "length-field-non-terminating", Bytes: b, Close: closes}
 	case 2:
 		typ := rapid.SampledFrom(ackTypes).Draw(rt, "t")
 		want := 0
@@ -641,6 +646,8 @@ func c06ConnRun(tb rapid.TB, c c06ConnCase) {
 	from := 0
 	if c.NoHandler {
 		cc.Handler, from = "off", -1
+	} else if c.HandlerAt > 0 && c.HandlerAt-1 <= len(c.Prefix) {
+		cc.Handler, cc.HalfAt, from = "half", c.HandlerAt-1, c.HandlerAt-1
 	}
 	obs, ok := c04Drive(tb, r, cc)
 	vCount("C06", len(c.Prefix) >= 1, vJSON(c), []string{"conn:" + c.Bad.Class}, func() interface{} { return c })
@@ -818,6 +825,7 @@ func TestVerifC06_Connected(t *testing.T) {
 			Junk:         rapid.SliceOfN(rapid.Byte(), 0, 16).Draw(rt, "junk"),
 			MaxRead:      rapid.SampledFrom([]int{0, 0, 1, 3}).Draw(rt, "maxRead"),
 			NoHandler:    rapid.IntRange(0, 2).Draw(rt, "noHandler") == 0,
+			HandlerAt:    rapid.SampledFrom([]int{0, 0, 1, 2, 3, 5}).Draw(rt, "handlerAt"),
 			BlockedWrite: rapid.IntRange(0, 4).Draw(rt, "blockedWrite") == 0,
 		}
 	}, c06ConnRun)
